@@ -982,8 +982,21 @@ class WebSocketProtocol13(WebSocketProtocol):
     ) -> list[tuple[str, dict[str, str]]]:
         extensions = headers.get("Sec-WebSocket-Extensions", "")
         if extensions:
-            return [httputil._parse_header(e.strip()) for e in extensions.split(",")]
+            return [self._parse_extension(e.strip()) for e in extensions.split(",")]
         return []
+
+    @staticmethod
+    def _parse_extension(ext: str) -> tuple[str, dict[str, Any]]:
+        name, params = httputil._parse_header(ext)
+        # httputil._parse_header drops parameters that have no value, but
+        # "client_no_context_takeover", "server_no_context_takeover" and a
+        # bare "client_max_window_bits" are significant (RFC 7692 section 7.1).
+        result: dict[str, Any] = dict(params)
+        for param in ext.split(";")[1:]:
+            param = param.strip().lower()
+            if param and "=" not in param:
+                result[param] = None
+        return name, result
 
     def _process_server_headers(
         self, key: str | bytes, headers: httputil.HTTPHeaders
